@@ -468,12 +468,15 @@ def apply(ctx: Ctx, call) -> None:
         op = build_op(name, param)
         hs = [w.h for w in ws]
         via = ctx.calls % 3
+        md = {"meta": {"k": [ctx.calls, "é"], "s": name}} if sc.extra.get("metadata") and via != 2 else {}
         if via == 0:
-            n = b.add_op(op, *hs)
+            n = b.add_op(op, *hs, **({"metadata": md["meta"]} if md else {}))
         elif via == 1:
-            n = b.add(op(*hs))
+            n = b.add(op(*hs), **({"metadata": md["meta"]} if md else {}))
         else:
             (n,) = b.extend(op(*hs))
+        if md:
+            ctx.features.add("metadata")
         _consume(ctx, ws)
         top.nodes.append(n)
         for i, t in enumerate(res):
